@@ -239,6 +239,7 @@ Step(e) ==
               /\ Keep
          ELSE RejectItems(e, items) /\ UNCHANGED stats
     [] e.op = "layout" -> Keep /\ UNCHANGED stats        \* byte layout of the file: judged by C05Trace
+    [] e.op = "iolog" -> Keep /\ UNCHANGED stats         \* allocations and writes of the file writer: judged by LayoutTrace
     [] e.op = "fdcheck" ->       \* after all files of the run were closed the process holds no more descriptors than before
          IF e.after > e.before THEN Reject(e, "file-descriptors-leaked", [before |-> e.before, after |-> e.after, cases |-> e.cases]) /\ UNCHANGED stats
          ELSE Keep /\ UNCHANGED stats
